@@ -16,7 +16,19 @@ pub(super) fn decode(src: &mut &[u8], uncompressed_size: usize) -> io::Result<Ve
         .zip(uncompressed_sizes)
         .map(|(compressed_size, uncompressed_size)| {
             let buf = split_off(src, compressed_size)?;
-            super::decode(buf, uncompressed_size)
+            let chunk = super::decode(buf, uncompressed_size)?;
+
+            if chunk.len() == uncompressed_size {
+                Ok(chunk)
+            } else {
+                Err(io::Error::new(
+                    io::ErrorKind::InvalidData,
+                    format!(
+                        "invalid chunk size: expected {uncompressed_size}, got {}",
+                        chunk.len()
+                    ),
+                ))
+            }
         })
         .collect::<io::Result<_>>()?;
 
